@@ -66,9 +66,40 @@ def handleRun (fields : List String) : String :=
     | _, _ => "BADCASE"
   | _ => "BADCASE"
 
+/-- `runmany <ast> <text,text,…> <implres|implres|…>`: one program on many texts (C10 enumeration) -/
+def handleRunMany (fields : List String) : String :=
+  match fields with
+  | ast :: texts :: rest =>
+    match parseSExp ast >>= progOf with
+    | some cmds =>
+      match genProgram cmds {} with
+      | .error _ => "RES GENERR"
+      | .ok bc =>
+        let ts := (texts.splitOn ",").filterMap unhex
+        let impls := match rest with
+          | r :: _ => r.splitOn "|"
+          | [] => []
+        let gs := genStates cmds {}
+        let results := ts.map (fun t => resStr (runProgram procFuel vmFuel "text".toUTF8.toList t bc))
+        let specFails := (ts.zip impls).filterMap (fun (ti : Bytes × String) =>
+          match parseMatches ti.2 with
+          | some ms =>
+            let sp := specOk ti.1 gs [ms]
+            if sp.1 == 1 && !sp.2 then some (hex ti.1) else none
+          | none => none)
+        let nspec := (ts.zip impls).foldl (fun n (ti : Bytes × String) =>
+          match parseMatches ti.2 with
+          | some ms => n + (specOk ti.1 gs [ms]).1
+          | none => n) 0
+        "RES " ++ "|".intercalate results ++ "\tSPEC " ++
+          (if specFails.isEmpty then s!"ok {nspec}" else "fail " ++ " ".intercalate specFails)
+    | none => "BADCASE"
+  | _ => "BADCASE"
+
 def handle (line : String) : String :=
   match line.splitOn "\t" with
   | id :: "run" :: fields => id ++ "\t" ++ handleRun fields
+  | id :: "runmany" :: fields => id ++ "\t" ++ handleRunMany fields
   | id :: op :: fields =>
     match Vore.Driver.extraOps.findSome? (fun h => h op fields) with
     | some r => id ++ "\t" ++ r
